@@ -536,7 +536,25 @@ public:
   static const uintptr_t kMaximumInputID = ~(uintptr_t)0xFF;
 };
 
+#ifdef LLBUILD_VERIF
+/// Verification-only notification points (compiled in only with
+/// -DLLBUILD_VERIF). The hook, when set, is invoked synchronously on the engine
+/// thread, without any engine lock held.
+namespace verif {
+enum class EngineHookPoint {
+  /// First statement of every iteration of the engine work loop.
+  LoopTop = 0,
+  /// Immediately before the engine blocks waiting for a task completion.
+  BeforeWait = 1,
+  /// Immediately before the cancellation drain blocks waiting for a completion.
+  CancelDrainWait = 2
+};
+extern std::function<void(BuildEngine*, EngineHookPoint)> engineHook;
 }
+#endif
+
+}
+
 }
 
 namespace std
